@@ -22,8 +22,8 @@ Complete(S, st, d, b, t) ==
 RECURSIVE SqSum(_)
 SqSum(S) == IF S = {} THEN 0 ELSE LET x == CHOOSE x \in S : TRUE IN x * x + SqSum(S \ {x})
 Assignments(S, st, b) ==
-  IF Cardinality(S) <= FullUpTo THEN [1..Cardinality(S) -> 1..6]
-  ELSE {[e \in 1..Cardinality(S) |-> ((SqSum(S) + 7 * st[1] + 3 * st[NN] + b + j * (2 * e + 1) + e * e * j) % 6) + 1] : j \in 1..SampleT}
+  IF Cardinality(S) <= FullUpTo THEN [1..Cardinality(S) -> FamIdx]
+  ELSE {[e \in 1..Cardinality(S) |-> ((SqSum(S) + 7 * st[1] + 3 * st[NN] + b + j * (2 * e + 1) + e * e * j) % 6) + 1] : j \in 1..SampleT} \cap [1..Cardinality(S) -> FamIdx]
 
 Configs ==
   UNION {{Complete(S, st, d, b, t) : t \in Assignments(S, st, b)} :
